@@ -1,5 +1,7 @@
-(* C13/ProofsCsv.v — the CSV writer model (encoding/csv as used by csv.go) is inverted by the
-   RFC 4180 reader of the specification, for all field contents; structure of the CSV exports. *)
+(* C13/ProofsCsv.v — the CSV writer model (encoding/csv as used by csv.go, and csv.go's own
+   writeCSVRecord) is inverted by the RFC 4180 reader of the specification, for all field contents;
+   no line of an export is empty, so readers that skip empty lines read the same records;
+   structure of the CSV exports. *)
 From Coq Require Import Strings.String.
 Require Import PG.Base.Bytes PG.Base.Value PG.C13.Lib PG.C13.Model PG.C13.Spec.
 Import List ListNotations.
@@ -229,6 +231,186 @@ Proof. unfold ex_recs. repeat constructor; discriminate. Qed.
 Example csv_roundtrip_ex' : csv_read (concat (map csv_record ex_recs)) = Some ex_recs.
 Proof. apply csv_roundtrip. exact csv_roundtrip_ex_hyp. Qed.
 
+(* ====================================================================== 1b. csv.go writeCSVRecord *)
+Lemma lone_empty_eq (r : list bytes) : lone_empty r = true -> r = [[]].
+Proof.
+  destruct r as [| f [| g r]]; cbn [lone_empty]; intros H; try discriminate H.
+  destruct f; [reflexivity | discriminate H].
+Qed.
+
+Lemma lone_line_read (k : bytes) :
+  csv_go CsvStart [] [] ([qt; qt; x0a] ++ k) =
+  match csv_go CsvStart [] [] k with Some l => Some ([[]] :: l) | None => None end.
+Proof. reflexivity. Qed.
+
+Lemma writeCSVRecord_read (r : list bytes) (k : bytes) :
+  r <> [] ->
+  csv_go CsvStart [] [] (writeCSVRecord r ++ k) =
+  match csv_go CsvStart [] [] k with Some l => Some (r :: l) | None => None end.
+Proof.
+  intros Hr. unfold writeCSVRecord. destruct (lone_empty r) eqn:E.
+  - apply lone_empty_eq in E. subst r. apply lone_line_read.
+  - apply csv_record_read. exact Hr.
+Qed.
+
+Theorem csv_lines_roundtrip : forall recs : list (list bytes),
+  Forall (fun r => r <> []) recs -> csv_read (concat (map writeCSVRecord recs)) = Some recs.
+Proof.
+  unfold csv_read. induction recs as [| r recs IH]; intros H.
+  - reflexivity.
+  - inversion H as [| ? ? Hr Hrest]; subst.
+    cbn [map concat]. rewrite writeCSVRecord_read by exact Hr.
+    rewrite IH by exact Hrest. reflexivity.
+Qed.
+
+(* ---------------------------------------------------------------------- no empty line *)
+(* the scanner over a byte that is no line end and no quote *)
+Lemma blank_plain (c : byte) (fr : bool) (r : bytes) :
+  beq c x0a = false -> beq c x0d = false -> beq c qt = false ->
+  csv_blank false fr (c :: r) = csv_blank false false r.
+Proof.
+  intros H1 H2 H3. unfold qt in H3. cbn [csv_blank]. rewrite H1, H2, H3. reflexivity.
+Qed.
+
+Lemma blank_special_plain (c : byte) (fr : bool) (r : bytes) :
+  csv_special c = false -> csv_blank false fr (c :: r) = csv_blank false false r.
+Proof.
+  intros H. apply csv_special_false in H. destruct H as (Hlf & Hcr & Hqt & _).
+  apply blank_plain; assumption.
+Qed.
+
+Lemma blank_unq_walk (f : bytes) : forall (k : bytes),
+  existsb csv_special f = false -> csv_blank false false (f ++ k) = csv_blank false false k.
+Proof.
+  induction f as [| c f IH]; intros k H.
+  - reflexivity.
+  - cbn [existsb] in H. apply orb_false_iff in H. destruct H as [Hc Hf].
+    cbn [app]. rewrite blank_special_plain by exact Hc. apply IH. exact Hf.
+Qed.
+
+Lemma blank_q_walk (f : bytes) : forall (fr : bool) (k : bytes),
+  csv_blank true fr (double_char qt f ++ qt :: k) = csv_blank false false k.
+Proof.
+  induction f as [| c f IH]; intros fr k.
+  - reflexivity.
+  - unfold double_char in *. cbn [flat_map]. rewrite <- !app_assoc.
+    destruct (beq c qt) eqn:E.
+    + apply beq_true in E. subst c. cbn [app].
+      change (csv_blank true fr (qt :: qt :: flat_map (fun c => if beq c qt then [qt; qt] else [c]) f ++ qt :: k))
+        with (csv_blank true false (flat_map (fun c => if beq c qt then [qt; qt] else [c]) f ++ qt :: k)).
+      apply IH.
+    + cbn [app]. cbn [csv_blank]. unfold qt in E. rewrite E. cbn [negb]. apply IH.
+Qed.
+
+Lemma needsQuotes_nonempty (f : bytes) : fieldNeedsQuotes f = true -> is_nil f = false.
+Proof. destruct f; [intros H; discriminate H | reflexivity]. Qed.
+
+(* after a field the scanner is still at the beginning of the line only if the field wrote nothing *)
+Lemma blank_field (f : bytes) (fr : bool) (k : bytes) :
+  csv_blank false fr (csv_field f ++ k) = csv_blank false (fr && is_nil f) k.
+Proof.
+  unfold csv_field. destruct (fieldNeedsQuotes f) eqn:E.
+  - rewrite (needsQuotes_nonempty f E), andb_false_r.
+    cbn [app]. rewrite <- app_assoc. cbn [app].
+    change (csv_blank false fr (""""%byte :: double_char """"%byte f ++ """"%byte :: k))
+      with (csv_blank true false (double_char qt f ++ qt :: k)).
+    apply blank_q_walk.
+  - apply noquotes_plain in E. destruct f as [| c f].
+    + cbn [app is_nil]. rewrite andb_true_r. reflexivity.
+    + cbn [existsb] in E. apply orb_false_iff in E. destruct E as [Hc Hf].
+      cbn [app is_nil]. rewrite andb_false_r.
+      rewrite blank_special_plain by exact Hc. apply blank_unq_walk. exact Hf.
+Qed.
+
+Lemma blank_lf (fr : bool) (k : bytes) :
+  csv_blank false fr (x0a :: k) = fr || csv_blank false true k.
+Proof. reflexivity. Qed.
+
+Lemma blank_comma (fr : bool) (k : bytes) :
+  csv_blank false fr (cm :: k) = csv_blank false false k.
+Proof. reflexivity. Qed.
+
+(* one line written by csv.Writer: it is empty exactly when the record is the lone empty field *)
+Lemma blank_record (fs : list bytes) : forall (f : bytes) (fr : bool) (k : bytes),
+  csv_blank false fr (join (B ",") (map csv_field (f :: fs)) ++ x0a :: k) =
+  (fr && lone_empty (f :: fs)) || csv_blank false true k.
+Proof.
+  induction fs as [| g fs IH]; intros f fr k.
+  - cbn [map join lone_empty]. rewrite blank_field. apply blank_lf.
+  - change (join (B ",") (map csv_field (f :: g :: fs)))
+      with (csv_field f ++ B "," ++ join (B ",") (map csv_field (g :: fs))).
+    rewrite <- !app_assoc. change (B "," ++ ?x) with (cm :: x).
+    rewrite blank_field, blank_comma, IH.
+    cbn [lone_empty andb]. rewrite andb_false_r. reflexivity.
+Qed.
+
+Lemma blank_lone_line (k : bytes) :
+  csv_blank false true ([qt; qt; x0a] ++ k) = csv_blank false true k.
+Proof. reflexivity. Qed.
+
+Lemma writeCSVRecord_blank (r : list bytes) (k : bytes) :
+  r <> [] -> csv_blank false true (writeCSVRecord r ++ k) = csv_blank false true k.
+Proof.
+  intros Hr. unfold writeCSVRecord. destruct (lone_empty r) eqn:E.
+  - apply blank_lone_line.
+  - destruct r as [| f fs]; [congruence |].
+    unfold csv_record. rewrite <- app_assoc. cbn [app].
+    rewrite blank_record, E. reflexivity.
+Qed.
+
+Theorem csv_lines_no_blank : forall recs : list (list bytes),
+  Forall (fun r => r <> []) recs -> csv_no_blank_line (concat (map writeCSVRecord recs)).
+Proof.
+  unfold csv_no_blank_line. induction recs as [| r recs IH]; intros H.
+  - reflexivity.
+  - inversion H as [| ? ? Hr Hrest]; subst.
+    cbn [map concat]. rewrite writeCSVRecord_blank by exact Hr. apply IH. exact Hrest.
+Qed.
+
+(* ---------------------------------------------------------------------- readers that skip empty lines *)
+(* for EVERY text: where there is no empty line there is nothing to drop *)
+Lemma drop_blank_id (t : bytes) : forall (inq fr : bool),
+  csv_blank inq fr t = false -> csv_drop_blank inq fr t = t.
+Proof.
+  induction t as [| c r IH]; intros inq fr H.
+  - reflexivity.
+  - cbn [csv_blank] in H. cbn [csv_drop_blank]. destruct inq.
+    + f_equal. apply IH. exact H.
+    + destruct (beq c x0a) eqn:E1.
+      * apply orb_false_iff in H. destruct H as [Hf Hb]. subst fr. f_equal. apply IH. exact Hb.
+      * destruct (beq c x0d) eqn:E2.
+        -- apply orb_false_iff in H. destruct H as [Hf Hb].
+           destruct r as [| c2 r2]; [reflexivity |].
+           rewrite Hf. f_equal. apply IH. exact Hb.
+        -- destruct (beq c """"%byte); f_equal; apply IH; exact H.
+Qed.
+
+Theorem csv_skip_agrees : forall t : bytes, csv_no_blank_line t -> csv_read_skip t = csv_read t.
+Proof.
+  intros t H. unfold csv_read_skip. rewrite (drop_blank_id t false true H). reflexivity.
+Qed.
+
+Theorem csv_lines_skip_roundtrip : forall recs : list (list bytes),
+  Forall (fun r => r <> []) recs -> csv_read_skip (concat (map writeCSVRecord recs)) = Some recs.
+Proof.
+  intros recs H. rewrite csv_skip_agrees by (apply csv_lines_no_blank; exact H).
+  apply csv_lines_roundtrip. exact H.
+Qed.
+
+(* the records of ex_recs again: the lone empty field now has a line of its own that is not empty;
+   blank lines INSIDE a quoted field stay where they are *)
+Definition ex_recs2 : list (list bytes) := ex_recs ++ [ [B "a" ++ [x0a; x0a] ++ B "b"]; [[]]; [[x0a]] ].
+Example csv_lines_ex_text :
+  concat (map writeCSVRecord [ [B "h"]; [[]]; [B "a" ++ [x0a; x0a] ++ B "b"]; [[]; []] ]) =
+  B "h" ++ [x0a] ++ B """""" ++ [x0a] ++ B """a" ++ [x0a; x0a] ++ B "b""" ++ [x0a] ++ B "," ++ [x0a].
+Proof. vm_compute. reflexivity. Qed.
+Example csv_lines_skip_ex : csv_read_skip (concat (map writeCSVRecord ex_recs2)) = Some ex_recs2.
+Proof. vm_compute. reflexivity. Qed.
+(* csv.Writer alone: the reader that skips empty lines loses the record *)
+Example csv_record_skip_loses :
+  csv_read_skip (concat (map csv_record [ [B "h"]; [[]]; [B "x"] ])) = Some [ [B "h"]; [B "x"] ].
+Proof. vm_compute. reflexivity. Qed.
+
 (* ====================================================================== 2. cell text *)
 Theorem formatCSVValue_text : forall sf64 sf32 jm v,
   formatCSVValue sf64 sf32 jm v = csv_text sf64 sf32 jm v.
@@ -244,9 +426,9 @@ Qed.
 
 (* ====================================================================== 3. one table *)
 Lemma table_body_records : forall sf64 sf32 jm (cols : list column) (rows : list row),
-  csv_record (map c_name cols)
-  ++ concat (map (fun r => csv_record (map (csv_cell sf64 sf32 jm r) cols)) rows)
-  = concat (map csv_record (map c_name cols :: map (fun r => map (csv_cell_text sf64 sf32 jm r) cols) rows)).
+  writeCSVRecord (map c_name cols)
+  ++ concat (map (fun r => writeCSVRecord (map (csv_cell sf64 sf32 jm r) cols)) rows)
+  = concat (map writeCSVRecord (map c_name cols :: map (fun r => map (csv_cell_text sf64 sf32 jm r) cols) rows)).
 Proof.
   intros sf64 sf32 jm cols rows. cbn [map concat]. f_equal. f_equal.
   rewrite map_map. apply map_ext. intros r.
@@ -254,7 +436,7 @@ Proof.
 Qed.
 
 Lemma TableToCSV_records : forall sf64 sf32 jm (t : table), t_cols t <> [] ->
-  TableToCSV sf64 sf32 jm t = concat (map csv_record (csv_records sf64 sf32 jm t)).
+  TableToCSV sf64 sf32 jm t = concat (map writeCSVRecord (csv_records sf64 sf32 jm t)).
 Proof.
   intros sf64 sf32 jm t Hc. unfold TableToCSV, csv_records.
   rewrite <- table_body_records.
@@ -276,7 +458,26 @@ Theorem TableToCSV_reads : forall sf64 sf32 jm (t : table), t_cols t <> [] ->
   csv_read (TableToCSV sf64 sf32 jm t) = Some (csv_records sf64 sf32 jm t).
 Proof.
   intros sf64 sf32 jm t Hc. rewrite TableToCSV_records by exact Hc.
-  apply csv_roundtrip. apply csv_records_nonempty. exact Hc.
+  apply csv_lines_roundtrip. apply csv_records_nonempty. exact Hc.
+Qed.
+
+(* no line of a table's export (outside quoted fields) is empty ... *)
+Theorem TableToCSV_no_blank_line : forall sf64 sf32 jm (t : table), t_cols t <> [] ->
+  csv_no_blank_line (TableToCSV sf64 sf32 jm t).
+Proof.
+  intros sf64 sf32 jm t Hc. rewrite TableToCSV_records by exact Hc.
+  apply csv_lines_no_blank. apply csv_records_nonempty. exact Hc.
+Qed.
+
+(* ... so a reader that skips empty lines reads the same records as the RFC 4180 reader *)
+Theorem TableToCSV_skip_reads : forall sf64 sf32 jm (t : table), t_cols t <> [] ->
+  csv_read_skip (TableToCSV sf64 sf32 jm t) = csv_read (TableToCSV sf64 sf32 jm t)
+  /\ csv_read_skip (TableToCSV sf64 sf32 jm t) = Some (csv_records sf64 sf32 jm t).
+Proof.
+  intros sf64 sf32 jm t Hc.
+  assert (E : csv_read_skip (TableToCSV sf64 sf32 jm t) = csv_read (TableToCSV sf64 sf32 jm t))
+    by (apply csv_skip_agrees; apply TableToCSV_no_blank_line; exact Hc).
+  split; [exact E |]. rewrite E. apply TableToCSV_reads. exact Hc.
 Qed.
 
 Definition ex_table : table :=
@@ -295,6 +496,25 @@ Example TableToCSV_reads_ex :
            [B "-7"; B "x" ++ [x0d; x0a] ++ B "y"; []];
            [[]; []; B "\."];
            [B "18446744073709551615"; B " s"; []] ].
+Proof. vm_compute. reflexivity. Qed.
+
+(* a single column: NULL, the empty string, a missing cell and a value; and an empty column name *)
+Definition ex_table1 (name : bytes) : table :=
+  {| t_name := B "t";
+     t_cols := [ {| c_name := name; c_type := B "text"; c_typid := 25 |} ];
+     t_rows := [ [ (name, VNil) ]; [ (name, VStr []) ]; []; [ (name, VStr (B "v")) ]; [ (name, VStr [x0a]) ] ];
+     t_rowcount := 5 |}.
+Example TableToCSV_single_ex :
+  TableToCSV (fun _ => []) (fun _ => []) (fun _ => []) (ex_table1 (B "c"))
+  = B "c" ++ [x0a] ++ B """""" ++ [x0a] ++ B """""" ++ [x0a] ++ B """""" ++ [x0a] ++ B "v" ++ [x0a]
+    ++ B """" ++ [x0a] ++ B """" ++ [x0a]
+  /\ TableToCSV (fun _ => []) (fun _ => []) (fun _ => []) (ex_table1 [])
+  = B """""" ++ [x0a] ++ B """""" ++ [x0a] ++ B """""" ++ [x0a] ++ B """""" ++ [x0a] ++ B "v" ++ [x0a]
+    ++ B """" ++ [x0a] ++ B """" ++ [x0a].
+Proof. split; vm_compute; reflexivity. Qed.
+Example TableToCSV_skip_reads_ex :
+  csv_read_skip (TableToCSV (fun _ => []) (fun _ => []) (fun _ => []) (ex_table1 []))
+  = Some [ [[]]; [[]]; [[]]; [[]]; [B "v"]; [[x0a]] ].
 Proof. vm_compute. reflexivity. Qed.
 
 Example TableToCSV_reads_ex' : forall sf64 sf32 jm,
